@@ -82,7 +82,8 @@ func (p *Proc) Open(context.Context) error {
 		return errors.New("verif: open refused for generation " + p.gen)
 	}
 	p.sh.opens++
-	p.W.Log.Add("Open", "conn", p.Cfg.ID, "key", p.key(), "kind", "processor", "ok", true, "gen", p.gen, "obj", p.obj)
+	geni, _ := strconv.Atoi(p.gen)
+	p.W.Log.Add("Open", "conn", p.Cfg.ID, "key", p.key(), "kind", "processor", "ok", true, "gen", p.gen, "geni", geni, "obj", p.obj)
 	return nil
 }
 
@@ -198,8 +199,9 @@ func (p *Proc) Process(ctx context.Context, recs []opencdc.Record) []sdk.Process
 			_, _, op, _ := ParseTag(o)
 			outPaths = append(outPaths, op)
 		}
+		geni, _ := strconv.Atoi(p.gen)
 		p.W.Log.Add("Proc", append([]any{"proc", p.Cfg.ID, "scope", p.Cfg.Scope, "kind", kind, "outs", outPaths,
-			"gen", p.gen, "call", call}, TagKV(tag)...)...)
+			"gen", p.gen, "geni", geni, "call", call}, TagKV(tag)...)...)
 	}
 	if n < len(recs) {
 		p.W.Log.Add("Fault", "what", "proc-short", "proc", p.Cfg.ID, "call", call, "returned", n, "of", len(recs))
@@ -253,6 +255,14 @@ func (w *World) ProcRelease(id, tag string) bool {
 		}
 	}
 	return false
+}
+
+// ProcOpens returns how many fake processor objects of id were opened successfully so far.
+func (w *World) ProcOpens(id string) int {
+	sh := w.procShared(id)
+	sh.mu.Lock()
+	defer sh.mu.Unlock()
+	return sh.opens
 }
 
 // ProcUngate makes the processor free-running.
